@@ -14,6 +14,8 @@ def dvalues(tier, seed):
     for c in (1 << 15, 1 << 31):
         d += [c - 2, c - 1, -c, -c + 1, -c - 1, c, c + 1]
     d += [1 << 32, (1 << 32) - 1, -(1 << 32), 0x7fff0000, -0x7fff0000, 0x10000, -0x10000, 255, 256, -255, -256]
+    # the 32-bit two's-complement spellings of -130..-1 (0xffffff7e..0xffffffff): every value around the rel8 boundary
+    d += [(1 << 32) + x for x in range(-130, 0)]
     if tier == "thorough":
         d += [1 << 40, -(1 << 40), (1 << 63) - 1, 1 << 63 - 1, 0x12345678, -0x12345678, 0x1000, -0x1000,
               (1 << 24), -(1 << 24), 0xffffff80, 0xffffffff, 0x80000000 - 129, -(0x80000000 - 129)]
